@@ -58,7 +58,12 @@ def scen_check(module, level, rule, min_obs_quick=None, min_obs_thorough=None, c
             if replay_doc is not None and replay_doc.get("cases"):
                 seed = replay_doc["cases"][0].get("seed", seed)
         if extra is not None and (not replay or total["evaluations"] == 0):
-            ev, eo, en = extra(prop, tier, seed)
+            try:
+                ev, eo, en = extra(prop, tier, seed)
+            except build.Inconclusive as e:
+                # an add-on pass that cannot be built must not hide what the main engines found
+                print("note: add-on pass of %s not built: %s" % (prop, str(e).splitlines()[-1][:200]))
+                ev, eo, en = [], {"addon_pass_unavailable": 1}, 0
             viols.extend(ev)
             total["evaluations"] += en
             total["nontrivial_sigs"].update("x%d" % i for i in range(en))
